@@ -4,8 +4,10 @@ usage: seedconfirm.py <prop> <x> <demo-dest-relative-path> <test command...>"""
 import json, os, shutil, subprocess, sys
 prop, x, dest = sys.argv[1:4]
 cmd = " ".join(sys.argv[4:])
-src = "/tmp/wt-%s/SEED/%s" % (prop, x)
+gen = os.environ.get("SEEDGEN", "1")
+src = ("/tmp/wt-%s/SEED/%s" if gen == "1" else "/tmp/wt2-%s/SEED/%s") % (prop, x)
 wt = "/tmp/confirm-%s-%s" % (prop, x)
+store = x if gen == "1" else {"a": "c", "b": "d"}[x]
 env = dict(os.environ, GOFLAGS="-mod=mod", GOPROXY="off", GOSUMDB="off", GOTOOLCHAIN="local")
 def sh(c, cwd=wt):
     p = subprocess.run(c, shell=True, cwd=cwd, env=env, stdout=subprocess.PIPE, stderr=subprocess.STDOUT, text=True)
@@ -46,7 +48,7 @@ ok = res.get("demo_without_patch") == "PASS" and res.get("suite_with_patch") == 
 res["confirmed"] = bool(ok)
 print(json.dumps({k: v for k, v in res.items() if not k.endswith("_tail") or not ok}, indent=1))
 if ok:
-    d = "/verif/seeded/%s-%s" % (prop, x)
+    d = "/verif/seeded/%s-%s" % (prop, store)
     os.makedirs(d, exist_ok=True)
     shutil.copy(os.path.join(src, "patch.diff"), d)
     shutil.copy(os.path.join(src, "notes.md"), d)
